@@ -227,7 +227,7 @@ struct iwkv {
   int32_t fmt_version;                   /**< Database format version */
   volatile int32_t wk_count;             /**< Number of active workers */
   volatile bool    wk_pending_exclusive; /**< If true someone wants to acquire exclusive lock on struct iwkv* */
-  volatile bool    open;                 /**< True if kvstore is in the operable state */
+  atomic_bool      open;                 /**< True if kvstore is in the operable state */
 };
 
 /** Database lookup context */
